@@ -137,6 +137,12 @@ func c15Run(steps []c15Step, fsKind ...string) *Case {
 			case "back":
 				lo = lo.Add(-5 * time.Second)
 				mt[s.File] = lo
+			case "back-ms":
+				lo = lo.Add(-130 * time.Millisecond)
+				mt[s.File] = lo
+			case "advance-ms":
+				hi = hi.Add(170 * time.Millisecond)
+				mt[s.File] = hi
 			default:
 				hi = hi.Add(5 * time.Second)
 				mt[s.File] = hi
@@ -210,6 +216,15 @@ func c15Solo(r *Run, n int) {
 		version := 0
 		hi, lo := int64(1700000000), int64(1700000000)
 		usedZero := map[string]bool{}
+		// every other history moves the modification times in steps of a few milliseconds (several saves within one second): a time is
+		// another time as soon as it differs at all
+		fine := i%2 == 1
+		stamp := func(mt int64) time.Time {
+			if fine {
+				return time.Unix(1700000000, 0).Add(time.Duration(mt-1700000000) * 9 * time.Millisecond)
+			}
+			return time.Unix(mt, 0)
+		}
 		for k := 3 + r.Rng.Intn(10); k > 0; k-- {
 			f := files[r.Rng.Intn(2)]
 			switch x := r.Rng.Intn(10); {
@@ -242,11 +257,11 @@ func c15Solo(r *Run, n int) {
 				case x < 3:
 					lo -= 7
 					mt = lo
-					modTime = time.Unix(mt, 0)
+					modTime = stamp(mt)
 				default:
 					hi += 7
 					mt = hi
-					modTime = time.Unix(mt, 0)
+					modTime = stamp(mt)
 				}
 				mfs[f] = &fstest.MapFile{Data: []byte(src), ModTime: modTime}
 				ops = append(ops, map[string]any{"op": "write", "file": f, "content": content, "mtime": mt})
@@ -280,11 +295,12 @@ func runC15(r *Run, replay *Case) {
 		}
 		c15Solo(r, n)
 	}()
-	r.Res.Rule = "histories over {edit (whole file / front-matter only / body only), make invalid, delete, recreate(edit after delete), touch, render via 4 entry points} x {page, component, layout} x mtime {advance, back}; " +
+	r.Res.Rule = "histories over {edit (whole file / front-matter only / body only), make invalid, delete, recreate(edit after delete), touch, render via 4 entry points} x {page, component, layout} x mtime {advance, back by seconds, advance, back by milliseconds within one second}; " +
 		"exhaustive for short histories (every single mutation between two renders via every pair of entry points), random up to 10 steps; non-trivial = contains a mutation between two renders"
 	var muts []c15Step
 	for _, f := range c15Files {
 		muts = append(muts, c15Step{Op: "edit-fm", File: f, Mtime: "advance"}, c15Step{Op: "edit-body", File: f, Mtime: "advance"}, c15Step{Op: "edit-fm", File: f, Mtime: "back"})
+		muts = append(muts, c15Step{Op: "edit", File: f, Mtime: "advance-ms"}, c15Step{Op: "edit-body", File: f, Mtime: "advance-ms"}, c15Step{Op: "edit-fm", File: f, Mtime: "back-ms"})
 		muts = append(muts, c15Step{Op: "edit", File: f, Mtime: "advance"}, c15Step{Op: "edit", File: f, Mtime: "back"}, c15Step{Op: "invalid", File: f, Mtime: "advance"}, c15Step{Op: "delete", File: f}, c15Step{Op: "touch", File: f})
 	}
 	for _, e1 := range c15Entries {
